@@ -34,12 +34,33 @@ REPR = {
     ("bool", 0): True, ("bool", 1): False,
     ("int", 0): 7, ("int", 1): -1,
     ("real", 0): 1.5, ("real", 1): 0.0,
-    ("name", 0): Name("Xq"), ("name", 1): Name("FlateDecode"),
+    ("name", 0): Name("Xq"), ("name", 1): Name("FlateDecode"), ("name", 2): Name(""),
     ("string", 0): b"xy", ("string", 1): b"",
     ("array", 0): [], ("array", 1): [7, Name("Xq")],
     ("dict", 0): {}, ("dict", 1): {"Type": Name("Xq"), "K": 7},
 }
 SINGLE_VARIANT = ("null", "stream")      # kinds with one representative only
+EMPTY = {"array": [], "dict": {}, "string": b"", "name": Name("")}
+
+
+class Content(list):
+    """structured data of a content stream: a list of parts, each either bytes (operators written out), or
+    ('inline', {key: value}, image bytes)  - an inline image  BI <entries> ID <data> EI, or
+    ('props', {key: value})                - a property list dictionary written in place (operand of BDC / DP).
+    The dictionaries are fault sites  <owner>/@<part index>/<key>  of class 'content'."""
+
+    def render(self):
+        out = bytearray()
+        for part in self:
+            if isinstance(part, (bytes, bytearray)):
+                out += part
+            elif part[0] == "inline":
+                out += b"BI " + b" ".join(ser(Name(k)) + b" " + ser(v) for k, v in part[1].items()) + b" ID " + part[2] + b" EI\n"
+            elif part[0] == "props":
+                out += ser(part[1]) + b" "
+            else:
+                raise MachineryError("faultdoc: unknown content part %r" % (part[0],))
+        return bytes(out)
 
 
 class Off:
@@ -71,8 +92,13 @@ class Rev:
 
 class SeedDoc:
     def __init__(self, name, revs, root=Ref(1), info=None, trailer_extra=None, sec=None, encrypt_obj=None,
-                 expect=(), features=()):
+                 expect=(), features=(), bulk_owners=(), fstride=1):
         self.name = name
+        # bulk_owners: objects that are plain copies of a described one (hundreds of identical pages): they are written
+        # but contribute no sites / cross-reference entries of their own to the abstract seed;  fstride: the file is cut
+        # at every fstride-th length only (long files whose every run is costly)
+        self.bulk_owners = set(bulk_owners)
+        self.fstride = fstride
         self.revs = revs
         self.root = root
         self.info = info
@@ -143,6 +169,15 @@ def _walk(owner, ownerobj, v, path, objects, out, offsets=()):
             _walk(owner, ownerobj, x, p, objects, out, offsets)
 
 
+def _walk_content(owner, ownerobj, content, objects, out):
+    for j, part in enumerate(content):
+        if isinstance(part, tuple):
+            for k, x in part[1].items():
+                st = _site(owner, ownerobj, ("@%d" % j, k), "dict", x, objects, ())
+                st["cls"] = "content"
+                out.append(st)
+
+
 def site_id(owner, path):
     return owner + "".join("/" + str(p) for p in path)
 
@@ -201,7 +236,8 @@ def parse_site(s):
 class Fault:
     """one fault as enumerated by Faults.tla:
          cls value   : site, kind in retype|delete|ref_self|ref_missing|ref_loop1|ref_loop2|
-                                     off_self|off_dangling|off_cycle|off_garbage|off_ws|off_self_ws|off_cycle_ws|rawstr,  to (retype: target kind,
+                                     off_self|off_dangling|off_cycle|off_garbage|off_ws|off_self_ws|off_cycle_ws|rawstr|
+                                     empty (to: the kind, 'r_' + kind behind a reference),  to (retype: target kind,
                                      'x' direct / 'r_x' through a reference), variant
          cls payload : site = owner of the stream, kind corrupt|truncate|setfield, pos, mode (corrupt: flip|low;
                        setfield: zero|max|beyond, variant = width of the field)
@@ -229,6 +265,8 @@ class Fault:
             x += "->%s.%d" % (self.to, self.variant)
         if self.kind == "rawstr":
             x += ".%d" % self.variant
+        if self.kind == "empty":
+            x += "->" + self.to
         if self.cls in ("payload", "file"):
             x += "@%d%s" % (self.pos, ("." + self.mode) if self.mode else "")
         elif self.nocache:
@@ -261,6 +299,10 @@ def plan(f, base):
             ind = True
         else:
             v = copy.deepcopy(REPR[(kind, 0 if kind in SINGLE_VARIANT else f.variant)])
+        fixed = add(v) if ind else v
+    elif f.kind == "empty":
+        ind = f.to.startswith("r_")
+        v = copy.deepcopy(EMPTY[f.to[2:] if ind else f.to])
         fixed = add(v) if ind else v
     elif f.kind == "rawstr":
         # encrypted documents: a string whose bytes in the file are no ciphertext (Raw bypasses the encryption
@@ -326,6 +368,7 @@ class Layout:
         self.size = 0
         self.derived = {}       # owner -> (ownerobj, value) of the (possibly damaged) document
         self.payloads = {}      # owner -> payload bytes as written
+        self.contents = {}      # owner -> Content (structured content streams)
         self.entries = []       # per revision: {objid: (t, a, b)}
         self.first_obj = None
 
@@ -425,7 +468,7 @@ def _assemble_once(seed, f, prevlay, header):
 
     def value_fault(owner, ownerobj, v, k):
         """apply f to owner's derived value when it is addressed to it"""
-        if make is None or f.owner != owner:
+        if make is None or f.owner != owner or (f.path and f.path[0].startswith("@")):
             return v
         applied[0] += 1
         if f.kind == "off_ws":
@@ -467,6 +510,15 @@ def _assemble_once(seed, f, prevlay, header):
             tr = transform(n) if encrypt else None
             if isinstance(v, Stream):
                 d = v.data
+                if isinstance(d, Content):
+                    # a fault addressed to an entry of a dictionary inside the content (<owner>/@<part>/<key>)
+                    if make is not None and f.owner == owner and f.path and f.path[0].startswith("@"):
+                        d = Content(copy.deepcopy(list(d)))
+                        part = d[int(f.path[0][1:])]
+                        set_at(part[1], f.path[1:], make(n, k))
+                        applied[0] += 1
+                    lay.contents[owner] = d
+                    d = d.render()
                 if tr is not None:
                     d = tr("stream", d)          # encrypted documents: the payload as it stands in the file is damaged
                 d = payload(owner, d)
@@ -654,13 +706,15 @@ def describe(seed):
             sites.append({"id": owner, "owner": owner, "ownerobj": 0, "cont": "root", "base": "int", "ind": False,
                           "cls": "offset"})
             continue
-        if owner.startswith("old:"):
+        if owner.startswith("old:") or owner in seed.bulk_owners:
             continue
         derived_owner = not owner.startswith("obj:")
         if not derived_owner:
             sites.append(_site(owner, ownerobj, (), "root", v, objects, ()))
             sites[-1]["id"] = owner
         _walk(owner, ownerobj, v, (), objects, sites, OFFSET_KEYS if derived_owner else ())
+        if owner in lay.contents:
+            _walk_content(owner, ownerobj, lay.contents[owner], objects, sites)
     # embedded font programs: the streams FontFile / FontFile2 / FontFile3 of a font descriptor refer to
     fontfiles = set()
     for v in objects.values():
@@ -677,7 +731,7 @@ def describe(seed):
     for k, e in enumerate(lay.entries):
         form = seed.revs[k].form
         for n, (t, a, b) in sorted(e.items()):
-            if t != 0:
+            if t != 0 and ("obj:%d" % n) not in seed.bulk_owners:
                 ents.append({"id": "xrefent:%d/%d" % (k, n), "form": "table" if form == "table" else "stream",
                              "t": t})
     direct = set()
@@ -686,4 +740,4 @@ def describe(seed):
         direct.update("obj:%d" % n for n in rev.objects if n not in packed)
         direct.difference_update("obj:%d" % n for n in rev.objects if n in packed)
     return {"name": seed.name, "sites": sites, "streams": streams, "ents": ents, "flen": len(data),
-            "enc": seed.sec is not None, "direct_owners": sorted(direct)}, data, lay
+            "enc": seed.sec is not None, "direct_owners": sorted(direct), "fstride": seed.fstride}, data, lay
